@@ -59,3 +59,22 @@ Definition c20_one (prog : stmt) (o : c20_obs) : bool :=
   && Bool.eqb (negb (script_exc_only s)) (c_base_only o).
 
 Definition c20_case (prog : stmt) (l : list c20_obs) : bool := forallb (c20_one prog) l.
+
+(* ------------------------------------------------------------------ C22: wrappers over closed PyGen plans *)
+From BV Require Import Gen.Wrappers.
+
+Definition mk_holes (l : list (bool * stmt)) : list (hole_state cl_state) :=
+  map (fun bp : bool * stmt => if fst bp then HFun (fun _ => cl_init (snd bp)) else HLive (cl_init (snd bp))) l.
+
+Definition call_id (c : call) : nat := match c with Call i _ => i | Enter i => i end.
+
+(* drop the calls to the plans in [mute] (plans the Python side cannot instrument, e.g. a list) *)
+Definition mute_calls (mute : list nat) (l : list (obs * list call)) : list (obs * list call) :=
+  map (fun oc => (fst oc, filter (fun c => negb (mem_nat (call_id c) mute)) (snd oc))) l.
+
+Definition c22_case (prog : stmt) (holes : list (bool * stmt)) (mute : list nat)
+           (l : list (list input * list (obs * list call))) : bool :=
+  forallb (fun so : list input * list (obs * list call) =>
+             ltrace_beq
+               (canon_ltrace [] (mute_calls mute (ltrace (w_lresume tie_fuel) (pg_init prog (mk_holes holes)) (fst so))))
+               (snd so)) l.
